@@ -62,7 +62,18 @@ def _rr_refs(self, tokens, idx, options, env):
     return '<p data-refs="%s">' % ",".join(sorted(env.get("references", {})))
 
 
-RENDER_RULES = {"text": _rr_upper, "strong_open": _rr_strong, "hr": _rr_hr, "paragraph_open": _rr_refs}
+def _rr_join(self, tokens, idx, options, env):
+    # a render rule that decorates the token it renders (a common plugin pattern)
+    tokens[idx].attrJoin("class", "lead")
+    return self.renderToken(tokens, idx, options, env)
+
+
+def _rr_set(self, tokens, idx, options, env):
+    tokens[idx].attrSet("data-x", "1")
+    return self.renderToken(tokens, idx, options, env)
+
+
+RENDER_RULES = {"heading_open": _rr_join, "em_open": _rr_set, "text": _rr_upper, "strong_open": _rr_strong, "hr": _rr_hr, "paragraph_open": _rr_refs}
 
 
 def budget(tier: str) -> dict:
